@@ -437,7 +437,7 @@ func runC03(c *ShardCtx) {
 // codeBodies enumerates block texts "{...}" of at most k items.
 func codeBodies(k int) []string {
 	atoms := []string{"x", " ", "\n", `"a"`, `"\\"`, `"\""`, `"{"`, `"}"`, `"'"`, `"//"`, `"/*"`, "`{`", "`}`", "`\\`", "`\"`", "`'\n`",
-		`'{'`, `'}'`, `'\''`, `'\\'`, `'"'`, "// }\n", "// \"\n", "// {'\n", "/* } */", "/* \" */", "/* ' { */", "/*\n}*/"}
+		`'{'`, `'}'`, `'\''`, `'\\'`, `'"'`, "// }\n", "// \"\n", "// {'\n", "//{\n", "//}\n", "/* } */", "/* \" */", "/* ' { */", "/*\n}*/"}
 	var seqs func(n int) []string
 	memo := map[int][]string{}
 	seqs = func(n int) []string {
